@@ -106,7 +106,7 @@ WORDS = ["hello", "world", "caption", "a", "I", "quick", "fox", "time", "two", "
 def rand_layout(rng, absolute=False):
     if rng.random() < 0.4:
         return None
-    u = "px" if absolute and rng.random() < 0.7 else "%"
+    u = rng.choice(["px", "px", "c", "em", "pt"]) if absolute and rng.random() < 0.7 else "%"
     d = {}
     if rng.random() < 0.7:
         d["origin"] = ["%d%s" % (rng.choice([0, 5, 10, 25, 64]), u), "%d%s" % (rng.choice([0, 5, 10, 36, 80]), u)]
